@@ -88,7 +88,7 @@ def run_tlc(module: str, cfg_text: str, workers: int | str = 16, simulate: str |
                 shutil.copy(os.path.join(SPEC_DIR, f), work)
         with open(os.path.join(work, module + '.cfg'), 'w') as f:
             f.write(cfg_text)
-        args = ['java', '-XX:+UseParallelGC', f'-Xmx{heap}', '-cp', JAR_CP, 'tlc2.TLC',
+        args = ['java', '-XX:+UseParallelGC', '-Xss64m', f'-Xmx{heap}', '-cp', JAR_CP, 'tlc2.TLC',
                 '-workers', str(workers), '-metadir', os.path.join(work, 'states'), '-noGenerateSpecTE']
         if not deadlock:
             args.append('-deadlock')
@@ -119,7 +119,7 @@ def run_tlc(module: str, cfg_text: str, workers: int | str = 16, simulate: str |
         if simulate is not None and cp.returncode == 0 and res.violated is None:
             res.ok = True
         if expect_ok and not res.ok:
-            tail = '\n'.join(out.splitlines()[-40:])
+            tail = '\n'.join([l for l in out.splitlines() if 'rror' in l or 'xception' in l or 'ttempted' in l][:12] + out.splitlines()[-30:])
             raise TLCError(f'TLC did not complete cleanly on {module} (rc={cp.returncode}, violated={res.violated}):\n{tail}')
         return res
     finally:
